@@ -44,7 +44,12 @@ Restart   == /\ Lifecycle /\ i # 0 /\ sg = 0 /\ i' = RefContinue(0, ubp) /\ Log(
 \* C11: quitting (dropping the debugger) ends the session in any state; nothing may be left behind
 Drop      == /\ Lifecycle /\ ncmd > 0 /\ i' = Exited /\ ncmd' = MaxCmd /\ hist' = Append(hist, [cmd |-> "drop", at |-> i])
              /\ UNCHANGED <<ubp, nbk, sg>>
+\* C02: commands that must not move the program nor leave anything behind: an injected call of a
+\* side-effect-free function, arming a (never delivered here) write watchpoint on the program's counter
+Extra(c)  == /\ Extras /\ i \in 1..N /\ i < TailPos /\ sg = 0
+             /\ UNCHANGED <<i, ubp, nbk, sg>> /\ Log([cmd |-> c])
 Cmd == \/ \E a \in BpCands : Break(a) \/ Remove(a)
+       \/ \E c \in {"call", "watch"} : Extra(c)
        \/ Start \/ Continue \/ Restart \/ Drop \/ SendSig
        \/ \E c \in {"stepi", "step", "next", "finish"} : StepCmd(c)
 Next == ncmd < MaxCmd /\ Cmd
